@@ -300,7 +300,11 @@ impl Buffer {
         } else {
             for y in 0..self.get_height() {
                 for x in 0..self.get_width() {
-                    let ch = self.get_char((x, y));
+                    let mut ch = self.get_char((x, y));
+                    if !ch.is_visible() {
+                        // a position no layer fills shows as a blank of its own font page, not of page 0
+                        ch = AttributedChar::default().with_font_page(ch.get_font_page());
+                    }
                     frame.layers[0].set_char((x, y), ch);
                 }
             }
